@@ -359,11 +359,16 @@ scAdvance1(void)
 	if (!scLine || scPeekChar() != ESC_CHAR || scIsInComment)
 		scIsEscaped = false;
 	else {
+		/* An escaped line break joins two lines: it must not reset the
+		 * float state the way the start of a new line does. */
+		FloatState fs = scFloatState;
 		scAdvance0();
 		if (isspace(scPeekChar())) {
 			while (isspace(scPeekChar())) scAdvance0();
+			scFloatState = fs;
 			goto restart;
 		}
+		scFloatState = fs;
 		scIsEscaped = true;
 	}
 }
